@@ -21,6 +21,9 @@ var Label63 = bytes.Repeat([]byte{'l'}, 63)
 // MaxName is a name of exactly 255 wire octets.
 var MaxName = [][]byte{Label63, Label63, Label63, bytes.Repeat([]byte{'m'}, 61)}
 
+// MaxNameEsc is a 255-octet name whose labels end in characters that need \X and \DDD escapes.
+var MaxNameEsc = [][]byte{append(bytes.Repeat([]byte{'e'}, 62), '.'), append(bytes.Repeat([]byte{'e'}, 62), ';'), append(bytes.Repeat([]byte{'e'}, 62), 0), append(bytes.Repeat([]byte{'e'}, 60), '"')}
+
 // Names is the name alphabet (first = default).
 var Names = [][][]byte{
 	L("host", "example"),
@@ -30,6 +33,8 @@ var Names = [][][]byte{
 	{[]byte("a.b"), []byte("c")},     // label containing a dot
 	{{0, 255, ' ', '"', '\\', ';', '(', ')', '@', '$', '\''}}, // hostile octets
 	{Label63, []byte("a")},
+	{append(bytes.Repeat([]byte{'s'}, 62), ' '), []byte("b")}, // maximal label that needs one \X escape
+	MaxNameEsc,
 	MaxName,
 }
 
